@@ -1,0 +1,37 @@
+// This file is part of AsmJit project <https://asmjit.com>
+//
+// See <asmjit/core.h> or LICENSE.md for license and copyright information
+// SPDX-License-Identifier: Zlib
+
+#ifndef ASMJIT_SUPPORT_VERIF_P_H_INCLUDED
+#define ASMJIT_SUPPORT_VERIF_P_H_INCLUDED
+
+// Verification hooks - only compiled when ASMJIT_VERIF is defined (never by the shipped build). The functions are
+// provided by the verification harness that links AsmJit statically.
+#if defined(ASMJIT_VERIF)
+
+#include <stddef.h>
+
+enum AsmJitVerifKnob {
+  kAsmJitVerifKnobArenaBlockSize = 0,
+  kAsmJitVerifKnobCodeBufferInitialCapacity = 1
+};
+
+extern "C" {
+
+// Returns non-zero if the arena request must fail (fault point). Also a scheduling point.
+int asmjit_verif_arena_request(void* arena, size_t size);
+
+// Passes a tuning constant through the harness, which returns either `value` or a replacement.
+size_t asmjit_verif_tune(int knob, size_t value);
+
+// Marks a place where bookkeeping shared between threads is accessed (scheduling point + lock ownership probe).
+void asmjit_verif_shared(const void* shared_object, const char* site);
+
+} // {extern "C"}
+
+#define ASMJIT_VERIF_SHARED(OBJ, SITE) asmjit_verif_shared(OBJ, SITE)
+
+#endif // ASMJIT_VERIF
+
+#endif // ASMJIT_SUPPORT_VERIF_P_H_INCLUDED
